@@ -7,7 +7,7 @@ KEEP = ['self.len == old_self.len', 'self.textstr == old_self.textstr', 'self.in
 
 
 def register(reg):
-    contract(reg, f'{T}:TextLinesCursor.move', P, {'self': 'Cursor', 'n': 'int'}, ret='None', modifies=['self'],
+    contract(reg, f'{T}:TextLinesCursor.move', P, {'self': 'Cursor', 'n': 'int'}, ret='None', modifies=['self'], wf=False,
              ensures=[('property', 'self.pos == max(0, min(self.len, old_self.pos + n))'), *KEEP])
     contract(reg, f'{T}:TextLinesCursor.atend', P, {'self': 'Cursor'}, ret='bool',
              ensures=[('property', 'result == (self.pos >= self.len)')])
